@@ -104,6 +104,9 @@ fn finish(mut w: World, mut violation: Option<Violation>, full: bool) -> RunOutp
             }
         }
     }
+    if violation.is_none() && !w.soft.is_empty() {
+        violation = Some(w.soft[0].clone());
+    }
     let mut fh = String::new();
     if violation.is_none() {
         for n in w.nodes.iter() {
